@@ -221,6 +221,7 @@ def check(mod, pid, tier, seed, t0):
 
     # ---- 3: corpus, then generated cases
     stats = new_stats()
+    stats["bstep_cap"] = 4000 if tier == "quick" else 40000     # builder calls run through the model per check
     rng = random.Random("%s/%s" % (seed, pid))
     kf_entries = common.load_kf(pid)
     kf_open = {common.sig_key(e["signature"]): e for e in kf_entries if e.get("status") == "finding"}
